@@ -1,4 +1,5 @@
 import ZCV.Lemmas.Misc
+import ZCV.Lemmas.Include
 namespace ZCV.Props.C13
 open ZCV ZCV.Cfg
 
@@ -10,5 +11,15 @@ theorem C13_stop_keeps_schema (st st' : LS) (ty : Str) (nm : Option Str) (h : ls
     st'.schema = st.schema := lsStop_schema st st' ty nm h
 theorem C13_value_keeps_schema (st st' : LS) (k v : Str) (p : Pos) (h : lsValue st k v p = .ok st') :
     st'.schema = st.schema := lsValue_schema st st' k v p h
+
+/-- **A whole parse without `%import` leaves the schema untouched**: if neither the text nor any resource it can
+    include contains an `%import` line, then after any successful parse — any length, any nesting, any include depth —
+    the loader's schema is exactly the one it started with (in particular no abstract type gained an implementer) -/
+theorem C13_parse_without_import_keeps_schema (env : Env)
+    (hres : ∀ u ls, env.res u = some ls → ∀ l ∈ ls, NoImportLine l)
+    (fuel : Nat) (active : List Str) (url : Option Str) (lines : List Str) (n : Nat) (st st' : PS LS)
+    (hl : ∀ l ∈ lines, NoImportLine l)
+    (h : parseLines fuel env loaderCtx active url lines n st = .ok st') : st'.ctx.schema = st.ctx.schema :=
+  parse_without_import_keeps_schema env hres fuel active url lines n st st' hl h
 
 end ZCV.Props.C13
